@@ -36,6 +36,8 @@ struct QmailEnv {
   }
   static std::string messpath(long n) { return "/var/qmail/queue/mess/" + std::to_string(n % SPLIT) + "/" + std::to_string(n); }
   static std::string qpath(const char *dir, long n, bool split) { return std::string("/var/qmail/queue/") + dir + "/" + (split ? std::to_string(n % SPLIT) + "/" : std::string()) + std::to_string(n); }
+  static std::string date822(long t) { static const char *mon[] = {"Jan","Feb","Mar","Apr","May","Jun","Jul","Aug","Sep","Oct","Nov","Dec"}; time_t tt = t; struct tm tm; gmtime_r(&tt, &tm); char b[64]; snprintf(b, sizeof b, "%d %s %d %02d:%02d:%02d -0000\n", tm.tm_mday, mon[tm.tm_mon], tm.tm_year + 1900, tm.tm_hour, tm.tm_min, tm.tm_sec); return b; }
+  static std::string received_line_at(int pid, int uid, long t) { std::string l = received_line(pid, uid); return l.substr(0, l.size() - strlen(QDATE)) + date822(t); }
   static std::string received_line(int pid, int uid) {
     std::string who = uid == UID_ALIAS ? "by alias" : uid == UID_QMAILD ? "from network" : uid == UID_QMAILS ? "for bounce" : "by uid " + std::to_string(uid);
     return "Received: (qmail " + std::to_string(pid) + " invoked " + who + "); " + QDATE;
